@@ -2,3 +2,4 @@ pub mod family;
 pub mod msg;
 pub mod poly;
 pub mod inst;
+pub mod lp;
